@@ -114,3 +114,12 @@ func TestC08UnclosedDirectiveArgs(t *testing.T) {
 		}
 	}
 }
+
+func TestC08TokenNameTable(t *testing.T) {
+	for _, inp := range []string{`@dump(1;)@dump(2)`, `@if(1;)@each(x in y)`} {
+		_, err, hung, p := evalTimeout(inp)
+		if hung || p != nil || err == nil {
+			t.Errorf("%q: want error, got err=%v hung=%v panic=%v", inp, err, hung, p)
+		}
+	}
+}
